@@ -129,6 +129,9 @@ End HeapP.
 Lemma source_does_not_retain : retains_from_source = false /\ writes_params_from_source = false.
 Proof. vm_compute. split; reflexivity. Qed.
 
+Lemma source_appends_only_internal : appends_only_internal = true.
+Proof. vm_compute. reflexivity. Qed.
+
 (* ---------- (iii) map iteration order ---------- *)
 Lemma find_by_value_in tbl v k : find_by_value tbl v = Some k -> In (k, v) tbl.
 Proof.
